@@ -315,7 +315,8 @@ def decRegistered (R : Registry) (gunzip : Bytes → Option Bytes) : Nat → Byt
               match gunzip packed with
               | none => .err "gzip"
               | some plain =>
-                match decRegistered R gunzip fuel plain [] with
+                -- the packed object is decoded by a decoder of its own that is given the hints not used so far
+                match decRegistered R gunzip fuel plain hs with
                 | .ok (inner, _, _) => .ok (.obj crc [inner], r1, hs)
                 | .err er => .err er
                 | .panic s => .panic s
